@@ -2,6 +2,8 @@ import XmppModel.Model.Payload
 import XmppModel.Model.Form
 import XmppModel.Lemmas.Payload
 import XmppModel.Lemmas.Form
+import XmppModel.Model.Payloads
+import XmppModel.Lemmas.Payloads
 import XmppModel.Generated.C19
 /-!
 # C19 — extension payloads encode consistently, safely and round-trip
@@ -262,5 +264,61 @@ theorem C19_textmulti_total (s : List Char) : splitNL s ≠ [] := by
     · split <;> simp
 
 example : splitNL [] = [[]] ∧ splitNL ['a', '\n'] = [['a'], []] := by decide
+
+/-! ### Layer 2: flat records (one theorem for every schema) and composite payloads -/
+
+open XmppModel.Payloads in
+/-- the field names of every schema of the library's flat payload types are distinct -/
+theorem C19_schemas_ok : ∀ p ∈ Payloads.schemas, p.2.ok = true := by decide
+
+open XmppModel.Payloads in
+/-- a flat record decodes to exactly the value that was written, for every schema with
+distinct field names and every well-typed value (attributes and children omitted when
+empty decode to the empty string) -/
+theorem C19_record_roundtrip (s : Schema) (vs : List FV) (hok : s.ok = true)
+    (hw : wellTyped s.fields vs = true) : decRec s (encRec s vs) = some vs :=
+  decRec_encRec s vs hok hw
+
+open XmppModel.Payloads in
+example : decRec ⟨⟨"jabber:iq:version", "query"⟩, [.child "name" true, .child "version" true, .child "os" true]⟩
+    (encRec ⟨⟨"jabber:iq:version", "query"⟩, [.child "name" true, .child "version" true, .child "os" true]⟩
+      [.one "a<b", .one "", .one "x\ny"]) = some [.one "a<b", .one "", .one "x\ny"] := by decide
+
+open XmppModel.Payloads in
+/-- a record of another element is refused -/
+theorem C19_record_name_checked (s : Schema) (n : Name) (as : List Attr) (ks : List Node) (h : n ≠ s.root) :
+    decRec s (.elem n as ks) = none := by
+  simp [decRec, h]
+
+open XmppModel.Payloads in
+theorem C19_rset_roundtrip (s : RSet) : decRSet (encRSet s) = some s := decRSet_encRSet s
+
+open XmppModel.Payloads in
+theorem C19_roster_roundtrip (q : RosterQuery) : decRosterQuery (encRosterQuery q) = some q :=
+  decRosterQuery_enc q
+
+open XmppModel.Payloads in
+/-- `disco.Info` (with the extension forms that `TokenReader` now writes) decodes to the same
+identities, features and node, and to the normal form of every form -/
+theorem C19_info_roundtrip (jn : JidNorm) (i : Info) (h : ∀ f ∈ i.forms, f.typ ≠ "submit") :
+    decInfo (encInfo jn i) = some { i with forms := i.forms.map (canonForm jn) } := by
+  cases i with
+  | mk node ids feats forms =>
+    simp only [encInfo, decInfo, if_true]
+    rw [decForms_append, decForms_append, decForms_features, decForms_identities,
+      decForms_forms jn forms h (fun f hf => C19_form_roundtrip jn f [] hf)]
+    simp only [Form.kidsNamed_append, kidsNamed_features, kidsNamed_identities]
+    rw [kidsNamed_forms jn "identity" forms (by decide), kidsNamed_forms jn "feature" forms (by decide)]
+    have hn : Payloads.attrOrEmpty (optAt "node" node) "node" = node := by
+      by_cases hnode : node = "" <;> simp [Payloads.attrOrEmpty, attrLast, optAt, at', hnode]
+    have hid : ∀ x : Identity, decIdentity ([at' "category" x.category] ++ optAt "name" x.name ++ [at' "type" x.typ]
+        ++ (if x.lang = "" then [] else [⟨⟨nsXML, "lang"⟩, x.lang⟩])) = x := decIdentity_enc
+    have hvar : ∀ v : String, Payloads.attrOrEmpty [at' "var" v] "var" = v := by
+      intro v; simp [Payloads.attrOrEmpty, attrLast, at']
+    have e1 : ("feature" = "identity") = False := by decide
+    have e2 : ("identity" = "feature") = False := by decide
+    simp only [e1, e2, if_true, if_false, List.nil_append, List.append_nil, List.map_map, Function.comp_def,
+      hn, hid, hvar, List.map_id', Option.bind_some, Option.map_some]
+    rfl
 
 end XmppModel.Props.C19
